@@ -271,8 +271,23 @@ class RewritingContext:
         self._symbol_deletions: Dict[gtirb.Symbol, SymbolDeletionOptions] = {}
         self._logger = logger
         self._patch_id = 0
+        self._used_label_suffixes = self._find_used_label_suffixes()
         self._expensive_assertions = expensive_assertions
         self._leaf_functions = self._update_leaf_functions()
+
+    def _find_used_label_suffixes(self) -> Set[int]:
+        """
+        Finds the numeric suffixes already used by symbols in the module, e.g.
+        temporary labels added by an earlier rewriting context. Patch IDs are
+        used as the suffix for temporary labels and must not collide with
+        these.
+        """
+        used = set()
+        for sym in self._module.symbols:
+            _, sep, digits = sym.name.rpartition("_")
+            if sep and digits.isdigit():
+                used.add(int(digits))
+        return used
 
     def _might_be_leaf_function(self, func: gtirb_functions.Function) -> bool:
         """
@@ -411,6 +426,8 @@ class RewritingContext:
             return None
 
         self._patch_id += 1
+        while self._patch_id in self._used_label_suffixes:
+            self._patch_id += 1
 
         is_trivially_unreachable = False
         if (
